@@ -596,7 +596,7 @@ def check_symbol(matrix, args, meta=None, props=None):
     version, mode, mask, encoding, eci, micro, boost_error).
     Returns (deviations, Symbol or None, info)."""
     out = []
-    want = set(props) if props else None
+    want = set(props) if props is not None else None
 
     def on(p):
         return want is None or p in want
